@@ -60,7 +60,51 @@ type AbsModel struct {
 	Conds    []AbsCond `json:"conds,omitempty"`
 }
 
-func absRw(u *openfgav1.Userset) *AbsTree {
+// absRw projects a rewrite tree. A tree nested deeper than maxRwDepth is not a tree any more (a listener that lets a Child slice
+// contain its own parent builds such a value): the projection stops there with a node of kind "cyclic" instead of overflowing the stack.
+const maxRwDepth = 100
+
+func absRw(u *openfgav1.Userset) *AbsTree { return absRwD(u, 0) }
+
+func usersetTooDeep(u *openfgav1.Userset, d int) bool {
+	if d > maxRwDepth {
+		return true
+	}
+	switch rw := u.GetUserset().(type) {
+	case *openfgav1.Userset_Union:
+		for _, c := range rw.Union.GetChild() {
+			if usersetTooDeep(c, d+1) {
+				return true
+			}
+		}
+	case *openfgav1.Userset_Intersection:
+		for _, c := range rw.Intersection.GetChild() {
+			if usersetTooDeep(c, d+1) {
+				return true
+			}
+		}
+	case *openfgav1.Userset_Difference:
+		return usersetTooDeep(rw.Difference.GetBase(), d+1) || usersetTooDeep(rw.Difference.GetSubtract(), d+1)
+	}
+	return false
+}
+
+// modelTooDeep names a relation whose rewrite contains itself (or is nested beyond any document), "" if there is none.
+func modelTooDeep(m *openfgav1.AuthorizationModel) string {
+	for _, td := range m.GetTypeDefinitions() {
+		for name, u := range td.GetRelations() {
+			if usersetTooDeep(u, 0) {
+				return td.GetType() + "#" + name
+			}
+		}
+	}
+	return ""
+}
+
+func absRwD(u *openfgav1.Userset, d int) *AbsTree {
+	if d > maxRwDepth {
+		return &AbsTree{K: "cyclic"}
+	}
 	switch rw := u.GetUserset().(type) {
 	case *openfgav1.Userset_This:
 		return &AbsTree{K: "this"}
@@ -71,17 +115,17 @@ func absRw(u *openfgav1.Userset) *AbsTree {
 	case *openfgav1.Userset_Union:
 		t := &AbsTree{K: "union", Ch: []*AbsTree{}}
 		for _, c := range rw.Union.GetChild() {
-			t.Ch = append(t.Ch, absRw(c))
+			t.Ch = append(t.Ch, absRwD(c, d+1))
 		}
 		return t
 	case *openfgav1.Userset_Intersection:
 		t := &AbsTree{K: "inter", Ch: []*AbsTree{}}
 		for _, c := range rw.Intersection.GetChild() {
-			t.Ch = append(t.Ch, absRw(c))
+			t.Ch = append(t.Ch, absRwD(c, d+1))
 		}
 		return t
 	case *openfgav1.Userset_Difference:
-		return &AbsTree{K: "diff", Ch: []*AbsTree{absRw(rw.Difference.GetBase()), absRw(rw.Difference.GetSubtract())}}
+		return &AbsTree{K: "diff", Ch: []*AbsTree{absRwD(rw.Difference.GetBase(), d+1), absRwD(rw.Difference.GetSubtract(), d+1)}}
 	}
 	return &AbsTree{K: "none"}
 }
